@@ -172,6 +172,15 @@ case("F48 vector quantile over two reduced axes with a fill", f48, lambda r: r i
 # F49
 case("F49 nanmedian of an all-NaN group between others", lambda: groupby_reduce(np.array([1.0, 2.0, np.nan, np.nan, 5.0, 6.0]), np.array([0, 0, 1, 1, 2, 2]), func="nanmedian")[0].tolist(), lambda r: r[0] == 1.5 and r[2] == 5.5 and r[1] != r[1])
 
+# F50
+def f50():
+    lab = np.array(["NaT", "NaT", "2001-01-01", "2001-01-02", "2001-01-01", "2001-01-03"], dtype="M8[ns]")
+    r, g = groupby_reduce(da.from_array(np.arange(6.), chunks=2), da.from_array(lab, chunks=2), func="sum")
+    return r.compute().tolist()
+
+
+case("F50 lazy datetime labels with a block of NaT", f50, lambda r: r == [6.0, 3.0, 5.0])
+
 bad = 0
 for name, verdict in results:
     print(f"{name:55s} {verdict}")
